@@ -235,6 +235,10 @@ func (p *FloatingIPPlugin) syncPodIP(pod *corev1.Pod) error {
 	if err != nil {
 		return err
 	}
+	if cniArgs == nil {
+		// the pod has annotations, but not the cni args one
+		return nil
+	}
 	ipInfos := cniArgs.Common.IPInfos
 	for i := range ipInfos {
 		if ipInfos[i].IP == nil || ipInfos[i].IP.IP == nil {
